@@ -17,5 +17,7 @@ func VerifUSpecConsts() [][2]any {
 		{"tpid_activeConnectionIDLimit", uint64(activeConnectionIDLimitParameterID)},
 		{"tpid_initialSourceConnectionID", uint64(initialSourceConnectionIDParameterID)},
 		{"tpid_maxDatagramFrameSize", uint64(maxDatagramFrameSizeParameterID)},
+		{"tpid_maxUDPPayloadSize", uint64(maxUDPPayloadSizeParameterID)},
+		{"tpid_ackDelayExponent", uint64(ackDelayExponentParameterID)},
 	}
 }
